@@ -183,6 +183,54 @@ def gen_scenario(rng, nfiles=None, shared=False):
             "sched": rng.randrange(1 << 30), "nthreads": rng.choice([1, 2, 4, 8])}
 
 
+def gen_shared_scenario(rng):
+    """two (or three) index files with byte-identical content in one directory: with by-hash they share their
+    by-hash/<Algo>/<hash> target and URL (as the identical empty Translation / dep11 files of real archives do)"""
+    tagc = [100]
+    n = rng.randint(2, 3)
+    size = rng.randint(4, 40)
+    algs = rng.sample(ALGOS, rng.randint(1, 2))
+    d = "dists/sh/main/i18n"
+    descs = []
+    for k in range(n):
+        name = f"{d}/Translation-{'abc'[k]}.xz"
+        ctor = None
+        adds = []
+        for a in algs:
+            h = f"{a.lower()}same"
+            if ctor is None:
+                ctor = ["from_hashed_path", name, size, a, h, True]
+            else:
+                adds.append([name, size, a, h, True])
+        descs.append({"ctor": ctor, "adds": adds, "ignore_errors": False})
+    date = rng.choice(DATES)
+    content_tag = 77
+
+    def good():
+        return Resp("ok", announced=rng.choice([size, None]), date=date, data=gen_content(content_tag, size),
+                    chunks=split_chunks(rng, size), tag=content_tag)
+
+    def bad():
+        k = rng.choice(["abort", "short", "error", "abort"])
+        if k == "error":
+            return Resp("error")
+        m = rng.randint(0, size - 1)
+        return Resp("ok", announced=rng.choice([size, None]), date=date, data=gen_content(content_tag, m), chunks=split_chunks(rng, m),
+                    abort=(k == "abort"), tag=content_tag)
+    scripts = {}
+    files = [build_dfile(x) for x in descs]
+    for f in files:
+        for v in f.compression_variants.values():
+            for p in v.get_all_paths():
+                p = str(p)
+                if p not in scripts:
+                    if "/by-hash/" in p:
+                        scripts[p] = [bad() if rng.random() < 0.45 else good() for _ in range(rng.randint(1, 6))] + [good() for _ in range(12)]
+                    else:
+                        scripts[p] = [good() for _ in range(12)]
+    return {"descs": descs, "fs": [], "scripts": scripts, "sched": rng.randrange(1 << 30), "nthreads": rng.choice([2, 4, 8]), "shared": True}
+
+
 def scenario_to_json(sc):
     return {"descs": sc["descs"], "fs": sc["fs"],
             "scripts": {k: [r.to_json() for r in v] for k, v in sc["scripts"].items()},
